@@ -218,8 +218,11 @@ func prefilterFunc(pattern string) func(string) bool {
 		// A literal is the prefix/suffix constraint only when it survived
 		// filterShort (len >= 2), meaning it IS the first/last literal in the
 		// pattern and not replaced by a longer one that appeared elsewhere.
-		usePrefix := hasBeginAnchor(re) && len(origFirst) >= 2
-		useSuffix := hasEndAnchor(re) && len(origLast) >= 2
+		//
+		// The anchor alone is not enough: the literal must also be adjacent to
+		// it. In `\A[xy]cd` the first literal is "cd" but it sits at offset 1.
+		usePrefix := len(origFirst) >= 2 && anchoredPrefixLiteral(re, caseInsensitive) == origFirst
+		useSuffix := len(origLast) >= 2 && anchoredSuffixLiteral(re, caseInsensitive) == origLast
 		if !usePrefix && !useSuffix {
 			// No anchor: sort longest-first for best early exit.
 			slices.SortFunc(filtered, func(a, b string) int { return len(b) - len(a) })
@@ -1019,6 +1022,54 @@ func hasEndAnchor(re *syntax.Regexp) bool {
 	return false
 }
 
+// anchoredPrefixLiteral returns the literal every match must start with at
+// offset 0 of the input: the first element of the pattern is \A and the element
+// right after it is a literal. Returns "" when there is no such literal (e.g.
+// `\A[xy]cd`, `\A.*cd`, `\Aa?cd`): the first *extracted* literal then sits at
+// an unknown offset, a HasPrefix check would be unsound and Contains is used.
+func anchoredPrefixLiteral(re *syntax.Regexp, ci bool) string {
+	leaves := edgeLeaves(re, false, nil)
+	if len(leaves) == 2 && leaves[0].Op == syntax.OpBeginText {
+		return rawLiteral(leaves[1], ci)
+	}
+	return ""
+}
+
+// anchoredSuffixLiteral is the mirror image of anchoredPrefixLiteral for \z.
+func anchoredSuffixLiteral(re *syntax.Regexp, ci bool) string {
+	leaves := edgeLeaves(re, true, nil)
+	if len(leaves) == 2 && leaves[0].Op == syntax.OpEndText {
+		return rawLiteral(leaves[1], ci)
+	}
+	return ""
+}
+
+// edgeLeaves returns the first two leaf nodes of re in matching order (the
+// last two in reverse order when trailing is set), looking through captures,
+// concatenations and x+ (whose first repetition starts, and last repetition
+// ends, where the group does).
+func edgeLeaves(re *syntax.Regexp, trailing bool, out []*syntax.Regexp) []*syntax.Regexp {
+	if len(out) >= 2 {
+		return out
+	}
+	switch re.Op {
+	case syntax.OpCapture, syntax.OpPlus:
+		return edgeLeaves(re.Sub[0], trailing, out)
+	case syntax.OpConcat:
+		for i := range re.Sub {
+			sub := re.Sub[i]
+			if trailing {
+				sub = re.Sub[len(re.Sub)-1-i]
+			}
+			if out = edgeLeaves(sub, trailing, out); len(out) >= 2 {
+				break
+			}
+		}
+		return out
+	}
+	return append(out, re)
+}
+
 // hasPrefixFoldASCII reports whether s begins with prefix (ASCII case-insensitive).
 // prefix must already be lowercase.
 func hasPrefixFoldASCII(s, prefix string) bool {
@@ -1124,8 +1175,8 @@ func buildCombinedPF(v combinedRequired, ci bool, re *syntax.Regexp) func(string
 
 	var allPF func(string) bool
 	if len(filteredAll) > 0 {
-		usePrefix := hasBeginAnchor(re) && len(origFirst) >= 2
-		useSuffix := hasEndAnchor(re) && len(origLast) >= 2
+		usePrefix := len(origFirst) >= 2 && anchoredPrefixLiteral(re, ci) == origFirst
+		useSuffix := len(origLast) >= 2 && anchoredSuffixLiteral(re, ci) == origLast
 		if !usePrefix && !useSuffix {
 			slices.SortFunc(filteredAll, func(a, b string) int { return len(b) - len(a) })
 		}
